@@ -541,8 +541,8 @@ class Reaction(object):
 
         """
         if isinstance(substance_keys, str):
-            if " " in substance_keys:
-                substance_keys = substance_keys.split()
+            # (also a single key: otherwise membership would be a substring test)
+            substance_keys = substance_keys.split()
         return to_reaction(
             string, substance_keys, cls._str_arrow, cls, globals_, **kwargs
         )
